@@ -9,6 +9,21 @@ import (
 
 func genC13(seed uint64, tier string, idx int) *Plan {
 	p, g := newPlan("C13", seed, tier)
+	if g.r.chance(2) {
+		// the listener cannot be opened (address in use): Run gives up, no terminal ever connects, and commands
+		// issued before, while and after that still return (not-exist)
+		p.ListenFail = true
+		p.Faults = append(p.Faults, "net.listen_fails")
+		for k := 0; k < 1+g.r.intn(3); k++ {
+			ca := &Actor{Name: fmt.Sprintf("call%d", k), Conn: -1}
+			ca.Ops = append(ca.Ops, Op{K: "call", MinStep: g.r.intn(60),
+				Call: &CallSpec{Key: "13800001234", Cmd: 0x8104, Body: []byte{0xC1, byte(k)}, Timeout: int64(time.Duration(100+g.r.intn(900)) * time.Millisecond)}})
+			p.Actors = append(p.Actors, ca)
+		}
+		p.Sched = g.sched()
+		p.MaxStep = 100000
+		return p
+	}
 	g.genCalls(callsOpts{maxConns: 2, maxCalls: 7, traffic: g.r.chance(50), disconnect: true,
 		reactKinds: []string{"ok", "ok", "never", "never", "late", "dup", "unknown"}})
 	p.Sched = g.sched()
